@@ -232,4 +232,46 @@ Proof.
     exists x', y'. repeat split; auto; apply quotient_nodes; eauto.
 Qed.
 
+
+(* with or without a limit: the node set is closed under (non-empty) ancestors, imports are between nodes and never a hierarchy pair *)
+Lemma proper_prefix_of_flatten lim (x p : name) :
+  In p (proper_prefixes (fl lim x)) -> In p (proper_prefixes x) /\ fl lim p = p.
+Proof.
+  destruct lim as [k|]; [|rewrite fl_none; intros H; split; [exact H|apply fl_none]].
+  intros H. apply in_proper_prefixes in H. destruct H as [Hp [c [Hc Hcn]]].
+  pose proof (flatten_prefix k x) as Hfx. apply (prefixb_spec ceqb ceqb_spec) in Hfx. destruct Hfx as [t Ht].
+  split.
+  - apply in_proper_prefixes. split; [exact Hp|]. exists (c ++ t). split.
+    + rewrite Ht at 1. unfold fl in Hc. rewrite Hc. rewrite <- app_assoc. reflexivity.
+    + intros E. apply app_eq_nil in E. tauto.
+  - unfold fl, flatten. apply firstn_all2.
+    assert (Hl : length (fl (Some k) x) <= S k) by (unfold fl, flatten; rewrite firstn_length; lia).
+    rewrite Hc, app_length in Hl. destruct c; [congruence|]. simpl in Hl. lia.
+Qed.
+
+Theorem build_nodes_ancestor_closed_lim lim mods imports n p :
+  In n (build_nodes ceqb lim mods imports) -> In p (proper_prefixes n) -> In p (build_nodes ceqb lim mods imports).
+Proof.
+  intros Hn Hp. apply in_build_nodes in Hn. apply in_build_nodes.
+  assert (Htrans : forall q m, In q (proper_prefixes m) -> In p (proper_prefixes q) -> In p (proper_prefixes m)).
+  { intros q m Hq Hpq. apply in_proper_prefixes in Hq. destruct Hq as [_ [c' [Hc' Hcn']]].
+    apply in_proper_prefixes in Hpq. destruct Hpq as [Hpn [c [Hc Hcn]]]. apply in_proper_prefixes.
+    split; [exact Hpn|]. exists (c ++ c'). split; [rewrite Hc', Hc, <- app_assoc; reflexivity|].
+    intros E. apply app_eq_nil in E. tauto. }
+  destruct Hn as [[m [Hm [->|[q [Hq ->]]]]]|[e [q [He [Hq ->]]]]];
+    apply proper_prefix_of_flatten in Hp; destruct Hp as [Hp Hfl].
+  - left. exists m. split; [exact Hm|]. right. exists p. split; [exact Hp|symmetry; exact Hfl].
+  - left. exists m. split; [exact Hm|]. right. exists p. split; [apply (Htrans q m Hq Hp)|symmetry; exact Hfl].
+  - right. exists e, p. split; [exact He|]. split; [apply (Htrans q _ Hq Hp)|symmetry; exact Hfl].
+Qed.
+
+Theorem build_imps_between_nodes mods imports lim a b :
+  In (a, b) (imps (build_graph ceqb mods imports lim)) ->
+  In a (nodes (build_graph ceqb mods imports lim)) /\ In b (nodes (build_graph ceqb mods imports lim)).
+Proof. intros H. apply in_build_imps in H. destruct H as [x [y [_ [_ [_ [_ [Ha [Hb _]]]]]]]]. cbn [nodes build_graph]. auto. Qed.
+
+Theorem build_imps_no_hier mods imports lim a b :
+  In (a, b) (imps (build_graph ceqb mods imports lim)) -> childb a b = false.
+Proof. intros H. apply in_build_imps in H. destruct H as [x [y [_ [_ [_ [_ [_ [_ Hc]]]]]]]]. exact Hc. Qed.
+
 End GraphProofs.
